@@ -598,9 +598,113 @@ def x2_small(ctx):
                        okv, {'a': a, 'dt': dt, 'calls (changed, start, end, se, threshold)': hist}, detail={'got': gv, 'want': None if wv is None else [float(wv[0]), float(wv[1])]})
 
 
+def x2_large_ties(ctx):
+    """round 9 (hx_r9a): the exact-tie records of the small tiers (pulse, zeros, running sum exactly ON start*total / end*total, the tie value REPEATED
+    over a quiet gap) at LARGE lengths (2500, 5000, around every new integer constant): 64 (or 20, decimal fractions) non-zero samples of +-m between
+    zeros, so that the running sum of squares is j*m*m on the j-th of them and stays there over the following gap; fractions j/64 (exact integers
+    decide) and 0.05 / 0.95 style decimals (the float64 mask of the definition decides).  Variants: spread (every tie followed by zeros), packed
+    (ties without zeros after them), early-pulse (the first js units in ONE sample, then a gap), near-tie (one unit is m+1: plateaus without a tie).
+    Evaluated for the array variant and for calc_sig_dur with the running sum of squares as a user measure."""
+    import eqsig
+    from eqsig import im
+    rng = ctx.rng
+    quick = ctx.tier == 'quick'
+    sizes = [2500, 5000] + ([] if quick else [2047, 2048, 2049, 4096, 20000, 70000]) + gen.hint_sizes(ctx, lo=130, hi=1000000, cap=6)
+    variants = ['spread', 'early-pulse', 'packed', 'near-tie', 'spread-decimal']
+    sq = lambda s_: np.cumsum(np.asarray(s_.values) ** 2)
+    for n in sizes:
+        for vi, variant in enumerate(variants):
+            dt = gen.dyadic_dt(rng)
+            m = float(rng.choice([1, 2, 3, 7, 50, 1000]))
+            units = 20 if variant == 'spread-decimal' else 64
+            js, je = rng.choice([(4, 60), (1, 63), (16, 48), (4, 32), (8, 60), (3, 61)]) if units == 64 else rng.choice([(1, 19), (2, 18), (5, 15), (1, 15)])
+            if variant == 'early-pulse':
+                js = rng.choice([1, 4, 16])
+            pos = sorted(rng.sample(range(n), units)) if variant != 'packed' else list(range((o := rng.randrange(n - units)), o + units))
+            if variant != 'packed' and pos[-1] == n - 1 and rng.random() < 0.5:
+                pos[-1] = n - 2 if n - 2 not in pos else pos[-1]
+            a = np.zeros(n)
+            for p_ in pos:
+                a[p_] = m * rng.choice([-1.0, 1.0])
+            if variant == 'early-pulse':                       # the first js units in one sample
+                a[pos[:js]] = 0.0
+                a[pos[rng.randrange(js)]] = m * math.isqrt(js)
+            if variant == 'near-tie':
+                a[pos[rng.randrange(js)]] = m + 1.0
+            ctx.hist('large-ties/' + variant)
+            ctx.hist(f'large-ties/n={n}')
+            ctx.count_case(('x2-large-ties', n, dt, js, je, variant, a.tobytes()[:0], tuple(pos[:8])), True)
+            nz = np.nonzero(a)[0]
+            if units == 64:
+                s, e = js / 64.0, je / 64.0
+                ci = np.cumsum(a.astype(np.int64) ** 2)
+                tot = int(ci[-1])
+                want = _x2_first_last((ci * 64 > js * tot) & (ci * 64 < je * tot))
+            else:
+                s, e = js / 20.0, je / 20.0
+                cf = np.cumsum(a ** 2)
+                want = _x2_first_last((cf > s * cf[-1]) & (cf < e * cf[-1]))
+            desc = {'a': f'{n} samples, zero except a[i] = v for (i, v) in nonzero', 'nonzero': [(int(i), float(a[i])) for i in nz], 'dt': dt, 'start': s, 'end': e, 'variant': variant}
+            asig = ctx.aged(eqsig.AccSignal, a, dt) if n <= 20000 else eqsig.AccSignal(a, dt)
+            for label, f in (('sum-of-squares', lambda se: call_impl(im.calc_sig_dur_vals, a, dt, start=s, end=e, se=se)),
+                             ('custom measure running sum of squares', lambda se: call_impl(im.calc_sig_dur, asig, start=s, end=e, im=sq, se=se))):
+                rv = f(True)
+                if want is None:
+                    ctx.oracle(f'C10.a [{label}] IndexError iff no sample lies strictly between the fractions [large instance]', rv == ('err', 'IndexError'), desc, detail=rv)
+                    continue
+                ok = rv[0] == 'ok' and _x2_idx(rv, dt) == (float(want[0]), float(want[1]))
+                ctx.oracle(f'C10.a [{label}] (start, end) == times of first/last sample strictly between the fractions of the total [large instance]', ok, desc,
+                           detail={'got': rv, 'want_indices': want})
+                d = f(False)
+                ctx.oracle(f'C10.a [{label}] se=False returns end - start [large instance]', d[0] == 'ok' and float(d[1]) == (want[1] - want[0]) * dt, desc, detail=d)
+            if want is not None and vi % 2 == 0:
+                k = rng.choice([1, 7, 4096])
+                r3 = call_impl(im.calc_sig_dur_vals, np.concatenate([np.zeros(k), a]), dt, start=s, end=e, se=True)
+                ctx.oracle('C10.d [sum-of-squares] start and end shift by k*dt when k zeros are prepended [large instance]',
+                           r3[0] == 'ok' and _x2_idx(r3, dt) == (want[0] + float(k), want[1] + float(k)), {**desc, 'k': k}, detail={'prepended': r3, 'want_indices': want},
+                           facts={'measure': 'sum-of-squares', 'clause': 'zero-prefix', 'a0_nonzero': bool(a[0] != 0)})
+
+
+def x2_block_pulses(ctx):
+    """round 9 (hx_r9a): bracketed duration of records with ISOLATED pulses at positions tied to every integer constant c the changed source may be
+    using (gen.hint_consts; nothing without hints): the first exceedance at c-2, c-1, c, c+1 (and multiples: 2c-1, 2c) and/or the last one at
+    n-1-c+{-1, 0, 1}, n-c+1 ..., record length c + 4465 or 2c + 17, thresholds only the pulses exceed, se True / False, one or two pulses."""
+    import eqsig
+    from eqsig import im
+    rng = ctx.rng
+    consts = gen.hint_consts(ctx, lo=4, hi=2 ** 20, cap=4)
+    for c in consts:
+        for n in (c + 4465, 2 * c + 17):
+            dt = gen.dyadic_dt(rng)
+            bgr = np.array([rng.uniform(-1, 1) for _ in range(997)]) * 0.125
+            base = np.resize(bgr, n)
+            firsts = [p_ for p_ in (c - 2, c - 1, c, c + 1, 2 * c - 1, 2 * c) if 0 <= p_ < n]
+            lasts = [p_ for p_ in (n - 1 - c - 1, n - 1 - c, n - c, n - c + 1, n - 1 - (c - 1) - 1, n - 1 - 2 * c, n - 2 * c) if 0 <= p_ < n]
+            cases = [(p_,) for p_ in firsts + lasts] + [(p_, rng.choice([q for q in lasts if q > p_] or [n - 1])) for p_ in firsts[:4]] + \
+                    [(rng.choice([0, 1, 5]), q) for q in lasts[:4] if q > 5]
+            for pulses in cases:
+                b = base.copy()
+                for p_ in pulses:
+                    b[p_] = rng.choice([-1.0, 1.0, 3.0])
+                thr = rng.choice([0.5, 0.125, 0.75])
+                asig = ctx.aged(eqsig.AccSignal, b, dt) if n <= 20000 else eqsig.AccSignal(b, dt)
+                wl = _x2_first_last(np.abs(b) > thr)
+                desc = {'a': f'{n} samples: 997 uniform(-1/8, 1/8) values repeated (seed-derived), pulses at {list(pulses)}', 'pulses': [(int(p_), float(b[p_])) for p_ in pulses],
+                        'dt': dt, 'threshold': thr, 'hinted constant': c}
+                ctx.hist(f'block-pulses/c={c}')
+                ctx.count_case(('x2-block-pulses', n, dt, pulses, thr, b[:32].tobytes()), True)
+                r_se, r_d = call_impl(im.calc_brac_dur, asig, thr, se=True), call_impl(im.calc_brac_dur, asig, thr)
+                okb = r_se[0] == 'ok' and r_d[0] == 'ok' and None not in r_se[1] and _x2_idx(r_se, dt) == (float(wl[0]), float(wl[1])) and float(r_d[1]) == (wl[1] - wl[0]) * dt
+                ctx.oracle('C10.f bracketed (start, end) == times of first/last sample with |a| > threshold, duration == their difference (0 / (None, None) when none) [large instance]', okb,
+                           desc, detail={'got': [r_se, r_d], 'want_indices': wl})
+
+
 def extras2(ctx):
     x2_large(ctx)
     x2_small(ctx)
+    x2_large_ties(ctx)
+    ctx.flush()
+    x2_block_pulses(ctx)
 
 
 _run_main2 = run
